@@ -95,6 +95,15 @@ CHECKS = {
             "Trusted: harness iterator implementing the documented protocol. Known finding: not-ready during rule "
             "evaluation is ignored by the engine.",
             "DESIGN.md section 2, C13"),
+    "C12": ("exploration",
+            "metamorphic oracle between executions of the real engine (a rule vs its semantics-preserving twins)",
+            "Each generated rule is run beside its twins - fast mode, two random atom-quality tables, forced "
+            "evaluation, integer operands rewritten as constant expressions or externals, externals compiled with a "
+            "different value and redefined at scanner or rule-set level - and verdicts (for atom tables also match "
+            "lists) must agree; literal and constant-expression forms of rules that range/sign checks must reject are "
+            "compiled separately and must be accepted/rejected alike. All under ASan+UBSan+LSan.",
+            "Trusted: the constant-expression generator (self-checked against Python arithmetic), harness recording.",
+            "DESIGN.md section 2, C12"),
 }
 
 NOT_YET = "check not built yet in this round (planned in DESIGN.md section 2); nothing is claimed for it"
